@@ -53,7 +53,7 @@ def run(prop, tier):
         raise vlib.Undecided('negative control D7 not detected')
     ck.cov['negative_controls'] = 1
     for algo, rate in [('SHA3_256', 136), ('Keccak_256', 136), ('SHA3_384', 104), ('SHA2_256', 64), ('SHA2_384', 128)]:
-        jobs.append({'kind': 'sweep', 'algo': algo, 'maxlen': 4 * rate, 'three': 2000 if tier == 'quick' else 200000, 'seed': seed})
+        jobs.append({'kind': 'sweep', 'algo': algo, 'maxlen': 4 * rate, 'three': 2000 if tier == 'quick' else 3000000, 'seed': seed})
     jobs.append({'kind': 'kmac', 'boundary': [b for b in boundary if b <= 700], 'seed': seed, 'dense': tier == 'thorough'})
     vh = vlib.build_vh()
     jp = os.path.join(vlib.subdir('scripts'), 'hash.ndjson')
